@@ -21,6 +21,7 @@ mod rfc1982;
 mod rrdp;
 mod rtrconn;
 mod rtrwire;
+mod rtaval;
 mod sigobj;
 mod rtrsession;
 mod slurm;
@@ -60,6 +61,9 @@ fn main() {
         ("drive", "caxml") => caxml::drive(rest),
         ("replay", "decoders") => decoders::replay(rest),
         ("replay", "taltext") => taltext::replay(rest),
+        ("replay", "rtaval") => rtaval::replay(rest),
+        ("cycle", "rtaval") => rtaval::cycle(rest),
+        ("drive", "rtaval") => rtaval::drive(rest),
         ("drive", "decoders") => decoders::drive(rest),
         ("replay", "sigobj") => sigobj::replay(rest),
         ("replay", "cmsmsg") => cmsmsg::replay(rest),
